@@ -71,6 +71,11 @@ TPoll ==
     /\ out'.stage = Line.o.stage
     /\ Line.o.stage = "submitted" => out'.m = LM(Line.o.m)
 
+TPollFail ==
+    /\ PollFail(ToSet(Line.a.q))
+    /\ out'.stage = Line.o.stage
+    /\ Line.o.n = 0                     \* nothing was handed to the submitter
+
 TBcast ==
     LET a == Line.a IN
     /\ a.wf /\ a.val
@@ -103,6 +108,7 @@ Act ==
               [] Line.e = "Env"      -> TEnv
               [] Line.e \notin Owned -> UNCHANGED vars
               [] Line.e = "Poll"     -> TPoll
+              [] Line.e = "PollFail" -> TPollFail
               [] Line.e = "Bcast"    -> TBcast
               [] Line.e = "Block"    -> TBlock
               [] Line.e = "TxResult" -> TTxResult
